@@ -314,6 +314,7 @@ def run(chk):
     part1(chk, run_)
     from . import c01_corr
     c01_corr.part2(chk)
+    c01_corr.part3(chk)
 
 
 def replay(chk, payload):
@@ -322,7 +323,9 @@ def replay(chk, payload):
     cell = payload.get("cell", "")
     if cell.startswith("C01/corr/"):
         from . import c01_corr
+        chk.tier = pl.get("tier", chk.tier) if isinstance(pl, dict) else chk.tier
         c01_corr.part2(chk)
+        c01_corr.part3(chk)
         return
     chk.tier = pl.get("tier", chk.tier)
     chk.seed = pl.get("seed", chk.seed)
